@@ -232,6 +232,11 @@ def run(cx):
     # it is refused there (dud), acknowledged anyway, and the disconnect goes out with the Reliable packet undelivered
     from props.C06 import inst_sender_alloc_pair
     inst_sender_alloc_pair(cx, "C09.n")
+    from props.C06 import inst_sibling_accounting
+    inst_sibling_accounting(cx, "C09.o")
+    # the tail of a flushed stream is delivered only if the receiver's scan bound follows the ids across the wrap
+    from props.idarith import id_arith_discipline
+    id_arith_discipline(cx, "C09.p")
 
 
 SELFTEST = [
